@@ -284,7 +284,8 @@ func (m *Mast) flush(ctx context.Context) (string, error) {
 		return "", fmt.Errorf("load root: %w", err)
 	}
 	if node.isEmpty() {
-		// never-populated tree: nothing to store, same root as an emptied tree
+		// never-populated or emptied tree: nothing to store
+		m.root = nil
 		return "", nil
 	}
 	storeQ := make(chan func() error)
